@@ -277,6 +277,39 @@ b('recv_result_let', 'recv binds the direct result to a local before returning',
             // Safety: it's safe to receive from owned signal once
             let v = unsafe { p.recv() };
             Ok(v)""")])
+b('helper_extracted_closed_kind', 'send: the Closed/ReceiveClosed decision is moved into a private helper',
+  [(LIB, 'pub fn send(&self, data: T)', """        if internal.recv_count == 0 {
+            let send_count = internal.send_count;
+            // Avoid wasting lock time on dropping failed send object
+            drop(internal);
+            if send_count == 0 {
+                return Err(SendError::Closed);
+            }
+            return Err(SendError::ReceiveClosed);
+        }""", """        if internal.recv_count == 0 {
+            let e = Self::closed_kind(&internal);
+            // Avoid wasting lock time on dropping failed send object
+            drop(internal);
+            return Err(e);
+        }"""),
+   (LIB, 'impl<T> Sender<T> {', """impl<T> Sender<T> {""", """impl<T> Sender<T> {
+    #[inline(always)]
+    fn closed_kind(internal: &ChannelInternal<T>) -> SendError {
+        if internal.send_count == 0 {
+            SendError::Closed
+        } else {
+            SendError::ReceiveClosed
+        }
+    }
+""")])
+b('helper_extracted_has_room', 'try_send_realtime: the admission test is moved into a private helper',
+  [(LIB, 'pub fn try_send_realtime', 'internal.queue.len() < internal.capacity', 'has_room(&internal)'),
+   (LIB, 'const UNBOUNDED_STARTING_SIZE', 'const UNBOUNDED_STARTING_SIZE: usize = 32;', """const UNBOUNDED_STARTING_SIZE: usize = 32;
+
+#[inline(always)]
+fn has_room<T>(internal: &ChannelInternal<T>) -> bool {
+    internal.queue.len() < internal.capacity
+}""")])
 
 
 def apply(text, marker, old, new, fname):
